@@ -787,6 +787,13 @@ theorem run_step_cmd {h : Hdr} {convert : Bool} {st : St} {ss : SSt} (hrel : Rel
         exact ⟨hrel.bs, rfl, hrel.chan, hrel.out, hrel.chanlt, hrel.bsle, hrel.len, hrel.slen, hrel.chans,
           hrel.frame⟩
 
+theorem loop_succ (h : Hdr) (convert : Bool) (f : Nat) (st : St) :
+    loop h convert (f + 1) st =
+      (step h convert st >>= fun x =>
+        match x with
+        | .inl st' => loop h convert f st'
+        | .inr out => pure out) := rfl
+
 /-- the loop run over an encoded well-formed command list arrives, with the fuel that is left, in a
     state related to the specification's state -/
 theorem run_loop_prefix {h : Hdr} {convert : Bool} (cmds : List Cmd) :
@@ -804,9 +811,7 @@ theorem run_loop_prefix {h : Hdr} {convert : Bool} (cmds : List Cmd) :
     refine ⟨st', hrel', ?_⟩
     intro rest
     simp only [List.flatMap_cons, List.length_cons, List.append_assoc]
-    rw [← Nat.add_assoc]
-    unfold loop
-    rw [Prog.run_bind_ok uvarGet (hrun _)]
+    rw [← Nat.add_assoc, loop_succ, Prog.run_bind_ok uvarGet (hrun _)]
     exact hrest rest
 
 theorem run_loop {h : Hdr} {convert : Bool} (r : List Bool) (cmds : List Cmd)
@@ -819,9 +824,7 @@ theorem run_loop {h : Hdr} {convert : Bool} (r : List Bool) (cmds : List Cmd)
   rw [e] at hrest
   rw [hrest]
   obtain ⟨f, hfe⟩ : ∃ f, fuel - cmds.length = f + 1 := ⟨fuel - cmds.length - 1, by omega⟩
-  rw [hfe]
-  unfold loop
-  rw [Prog.run_bind_ok uvarGet (run_step_quit _ _)]
+  rw [hfe, loop_succ, Prog.run_bind_ok uvarGet (run_step_quit _ _)]
   simp [hrel'.out]
 
 /-- an unknown function code after a well-formed prefix -/
@@ -836,14 +839,14 @@ theorem run_loop_badcmd {h : Hdr} {convert : Bool} (r : List Bool) (cmds : List 
   rw [e] at hrest
   rw [hrest]
   obtain ⟨f, hfe⟩ : ∃ f, fuel - cmds.length = f + 1 := ⟨fuel - cmds.length - 1, by omega⟩
-  rw [hfe]
-  unfold loop step
+  rw [hfe, loop_succ]
+  unfold step
   simp only [Prog.run_bind]
   rw [run_uvar_put]
   have h8 : 8 < code := hcode
   have e1 : ¬ code = FN_QUIT := by simp only [FN_QUIT]; omega
-  have e2 : BLOCK_CMDS.contains code = false := by
-    simp only [BLOCK_CMDS, List.contains_cons, List.contains_nil, Bool.or_false, Bool.or_eq_false_iff, beq_eq_false_iff_ne]
+  have e2 : ¬ code ∈ BLOCK_CMDS := by
+    simp only [BLOCK_CMDS, List.mem_cons, List.not_mem_nil, or_false]
     omega
   have e3 : ¬ code = FN_BLOCKSIZE := by simp only [FN_BLOCKSIZE]; omega
   have e4 : ¬ code = FN_BITSHIFT := by simp only [FN_BITSHIFT]; omega
@@ -887,11 +890,20 @@ theorem cmds_length_le (cmds : List Cmd) : cmds.length ≤ (cmds.flatMap encodeC
     have := encodeCmd_length_pos c
     simp only [List.flatMap_cons, List.length_append, List.length_cons]; omega
 
-theorem run_mainProg (p : Program) (convert : Bool) (hwf : WF p) (fuel : Nat) (hf : p.cmds.length < fuel)
-    (r : List Bool) :
-    (mainProg p.hdr.version convert fuel).run uvarGet (encode p ++ r) = .ok (sem convert p, r) := by
-  obtain ⟨_, _, hft, hnc, hbs, hcmds⟩ := hwf
-  unfold mainProg encode
+/-- the bits `encode` writes before the first command -/
+def encodeHdr (p : Program) : List Bool :=
+  ulongPut p.hdr.ftype ++ ulongPut p.hdr.nchan ++ ulongPut p.hdr.bs0 ++ ulongPut p.hdr.maxnlpc
+    ++ ulongPut p.hdr.nmean ++ ulongPut p.skip.length ++ p.skip.flatMap (uvarPut XBITESIZE)
+
+theorem encode_eq (p : Program) :
+    encode p = encodeHdr p ++ (p.cmds.flatMap encodeCmd ++ uvarPut FNSIZE FN_QUIT) := by
+  simp [encode, encodeHdr]
+
+theorem run_mainProg_hdr (p : Program) (convert : Bool) (hft : p.hdr.ftype < FTYPE_LIMIT)
+    (hnc : 1 ≤ p.hdr.nchan) (hbs : 1 ≤ p.hdr.bs0) (fuel : Nat) (rest : List Bool) :
+    (mainProg p.hdr.version convert fuel).run uvarGet (encodeHdr p ++ rest)
+      = (loop p.hdr convert fuel (initSt p.hdr)).run uvarGet rest := by
+  unfold mainProg encodeHdr
   simp only [List.append_assoc]
   rw [Prog.run_bind_ok uvarGet (run_ulong_put _ _)]
   have e1 : ¬ (p.hdr.ftype ≥ FTYPE_LIMIT) := by omega
@@ -901,7 +913,30 @@ theorem run_mainProg (p : Program) (convert : Bool) (hwf : WF p) (fuel : Nat) (h
     Prog.run_bind_ok uvarGet (run_ulong_put _ _), Prog.run_bind_ok uvarGet (run_skipBytes _ _)]
   have e2 : ¬ (p.hdr.nchan = 0 ∨ p.hdr.bs0 = 0) := by omega
   simp only [e2, if_false]
+
+theorem run_mainProg (p : Program) (convert : Bool) (hwf : WF p) (fuel : Nat) (hf : p.cmds.length < fuel)
+    (r : List Bool) :
+    (mainProg p.hdr.version convert fuel).run uvarGet (encode p ++ r) = .ok (sem convert p, r) := by
+  obtain ⟨_, _, hft, hnc, hbs, hcmds⟩ := hwf
+  rw [encode_eq, List.append_assoc, run_mainProg_hdr p convert hft hnc hbs, List.append_assoc]
   exact run_loop r p.cmds fuel _ _ (rel_init p.hdr hnc) hcmds hf
+
+theorem run_mainProg_badcmd (p : Program) (convert : Bool) (hwf : WF p) (code : Nat) (hcode : FN_ZERO < code)
+    (fuel : Nat) (hf : p.cmds.length < fuel) (r : List Bool) :
+    (mainProg p.hdr.version convert fuel).run uvarGet
+        (encodeHdr p ++ (p.cmds.flatMap encodeCmd ++ (uvarPut FNSIZE code ++ r)))
+      = .error (.io .badCmd) := by
+  obtain ⟨_, _, hft, hnc, hbs, hcmds⟩ := hwf
+  rw [run_mainProg_hdr p convert hft hnc hbs]
+  exact run_loop_badcmd r p.cmds code hcode fuel _ _ (rel_init p.hdr hnc) hcmds hf
+
+theorem run_mainProg_badtype (version : Nat) (convert : Bool) (fuel ftype : Nat) (hft : FTYPE_LIMIT ≤ ftype)
+    (r : List Bool) :
+    (mainProg version convert fuel).run uvarGet (ulongPut ftype ++ r) = .error (.io .badType) := by
+  unfold mainProg
+  rw [Prog.run_bind_ok uvarGet (run_ulong_put _ _)]
+  have e1 : ftype ≥ FTYPE_LIMIT := hft
+  simp [e1]
 
 theorem versionOk_of_wf (v : Nat) (h1 : 1 ≤ v) (h2 : v ≤ 2) : versionOk (v : Int) = true := by
   have : v = 1 ∨ v = 2 := by omega
